@@ -323,7 +323,7 @@ fn shrink_unit(f: &Flat, kind: &str, drv: &mut Driver) -> Flat {
 /// text form of an encoded sheet (the replayable input): rows separated by `/`; a row is `<rep>:<cells>` with
 /// `<rep>` empty when the element has no number-rows-repeated attribute; cells separated by `;`; a cell is
 /// `<kind><payload>[=<formula hex>][~][*k]`: `_` blank, `c` covered blank, `f|p|u<f64 bits hex>`,
-/// `s|a|d|t<utf8 hex>`, `b0|b1`; `=…` = table:formula; `~` = has a display `text:p`; `*k` = number-columns-repeated="k".
+/// `s|a|d|t<utf8 hex>`, `b0|b1`; `=…` = table:formula; `~` = has a display `text:p`; `%` = empty string cell without any `text:p` child; `>` = a childless cell is written `<x></x>` instead of `<x/>`; `*k` = number-columns-repeated="k".
 fn cell_text(c: &OdsCell) -> String {
     let mut s = match &c.val {
         OdsVal::Empty => if c.covered { "c".to_string() } else { "_".to_string() },
@@ -348,6 +348,12 @@ fn cell_text(c: &OdsCell) -> String {
     if !c.extra_attrs.is_empty() {
         s.push('+');
     }
+    if !c.empty_paragraph {
+        s.push('%');
+    }
+    if !c.self_closing {
+        s.push('>');
+    }
     if c.display.is_some() {
         s.push('~');
     }
@@ -360,7 +366,7 @@ fn cell_text(c: &OdsCell) -> String {
 /// decorations of the table element that hold no rows: column declarations (shape 0..5 of `odsw::columns_xml`,
 /// 9 = none) for `ncols` columns, and a bit set: 1 `table:table-source`, 2 `office:forms`, 4 `table:shapes` (with a
 /// text box), 8 sheet-local `table:named-expressions` after the rows, 16 `calcext:conditional-formats` after the
-/// rows, 32 `table:protected` / `table:print` attributes on the table, 64 decoy sheets before and after
+/// rows, 32 `table:protected` / `table:print` attributes on the table, 64 decoy sheets before and after, 128 a table without any child is written `<table:table …/>`
 #[derive(Clone, Copy, Debug, PartialEq)]
 struct Deco {
     col_shape: usize,
@@ -396,6 +402,9 @@ fn decorate(sheet: &mut OdsSheet, d: Deco) {
         post.push_str("<calcext:conditional-formats><calcext:conditional-format calcext:target-range-address=\"Sheet1.A1:Sheet1.B2\"><calcext:condition calcext:apply-style-name=\"Good\" calcext:value=\"&gt;1\" calcext:base-cell-address=\"Sheet1.A1\"/></calcext:conditional-format></calcext:conditional-formats>");
     }
     sheet.postlude = post;
+    if d.bits & 128 != 0 {
+        sheet.self_closing = true; // only takes effect on a table without any child
+    }
     if d.bits & 32 != 0 {
         sheet.extra_attrs = " table:protected=\"true\" table:print=\"false\"".into();
     }
@@ -420,6 +429,9 @@ fn row_text(r: &RowRun) -> String {
     }
     if !r.extra_attrs.is_empty() {
         t.push('Y');
+    }
+    if r.self_closing {
+        t.push('Z');
     }
     t.push_str(&format!(
         "{}:{}",
@@ -448,7 +460,7 @@ fn parse_cell(s: &str) -> OdsCell {
         Some((b, k)) => (b, Some(k.parse::<usize>().unwrap())),
         None => (s, None),
     };
-    let (mut body, mut disp, mut ann, mut extra) = (body, false, false, false);
+    let (mut body, mut disp, mut ann, mut extra, mut nopara, mut openclose) = (body, false, false, false, false, false);
     loop {
         if let Some(b) = body.strip_suffix('~') {
             body = b;
@@ -459,6 +471,12 @@ fn parse_cell(s: &str) -> OdsCell {
         } else if let Some(b) = body.strip_suffix('+') {
             body = b;
             extra = true;
+        } else if let Some(b) = body.strip_suffix('%') {
+            body = b;
+            nopara = true;
+        } else if let Some(b) = body.strip_suffix('>') {
+            body = b;
+            openclose = true;
         } else {
             break;
         }
@@ -502,6 +520,8 @@ fn parse_cell(s: &str) -> OdsCell {
     if extra {
         c.extra_attrs = CELL_EXTRA.into();
     }
+    c.empty_paragraph = !nopara;
+    c.self_closing = !openclose;
     c
 }
 
@@ -535,6 +555,7 @@ fn parse_sheet(s: &str) -> (Vec<RowRun>, Deco) {
                     'F' => row.visibility = Some("filter".into()),
                     'K' => row.soft_break_before = true,
                     'Y' => row.extra_attrs = ROW_EXTRA.into(),
+                    'Z' => row.self_closing = true,
                     _ => {}
                 }
             }
@@ -596,7 +617,7 @@ fn wrap_rows(rows: &mut [RowRun], rng: &mut Rng) -> Deco {
     Deco {
         col_shape: if rng.chance(1, 3) { 9 } else { rng.below(6) as usize },
         ncols: *rng.pick(&[1usize, 2, 3, 7, 1024, 16384]),
-        bits: if rng.chance(1, 2) { rng.below(128) as u32 } else { 0 },
+        bits: if rng.chance(1, 2) { rng.below(256) as u32 } else { 0 },
     }
 }
 
@@ -642,6 +663,30 @@ fn gen_grid(rng: &mut Rng) -> TGrid {
     }
     let r0 = *rng.pick(&ROW_BASE);
     let c0 = *rng.pick(&COL_BASE);
+    if rng.chance(1, 12) {
+        // boundary positions: a small block right behind the sheet limits of the office suites (column 16384, row
+        // 1048576) and other powers of two, so that ONE blank run longer than the limit precedes a value; every
+        // value lies near (r0, c0), so the bounding box stays small
+        let rb = *rng.pick(&[0u64, 0, 3, 1_048_575, 1_048_576, 1_048_577, 1_048_590, 2_097_153, 16_777_217]);
+        let cb = *rng.pick(&[0u64, 2, 16_383, 16_384, 16_385, 16_400, 65_536, 65_537, 1_048_577]);
+        let h = rng.range(1, 3);
+        let w = rng.range(1, 3);
+        for i in 0..h {
+            for j in 0..w {
+                if rng.chance(2, 3) {
+                    g.insert((rb + i, cb + j), palette(rng));
+                }
+            }
+        }
+        if g.is_empty() {
+            g.insert((rb, cb), palette(rng));
+        }
+        // sometimes one more value in the first column of one of these rows: a single row as wide as the limit
+        if (cb <= 16_400 || (cb <= 65_537 && rng.chance(1, 4))) && rng.chance(1, 4) {
+            g.insert((rb, 0), palette(rng));
+        }
+        return g;
+    }
     if rng.chance(1, 100) {
         // two far-apart cells (bounding box <= 2^21 cells, mostly much smaller)
         let h = rng.range(1, 2000);
@@ -717,6 +762,7 @@ fn encode(g: &TGrid, rng: &mut Rng) -> Vec<RowRun> {
             _ => vec![OdsCell::empty().covered(), OdsCell::empty_run(2)],
         };
         let mut r = RowRun::new(cells);
+        r.self_closing = rng.chance(1, 2);
         if k > 1 || rng.chance(1, 3) {
             r.repeat = Some(k as usize);
         }
@@ -778,6 +824,8 @@ fn encode(g: &TGrid, rng: &mut Rng) -> Vec<RowRun> {
                 cell.covered = true; // a covered cell that still carries content
             }
             cell.self_closing = rng.chance(1, 2);
+            // every childless form of a cell: an empty string without its empty paragraph
+            cell.empty_paragraph = !rng.chance(1, 2);
             cells.push(cell);
             c = col + k;
             i += k as usize;
@@ -908,11 +956,28 @@ fn run_file(rows: &[RowRun], deco: Deco, drv: &mut Driver, stored: bool) -> File
     }
     book.stored = stored;
     let bytes = book.to_bytes();
+    let bytes_len = bytes.len();
     let mut typed = None;
     let imp = match guarded(|| {
         let mut ods: Ods<_> = Ods::new(Cursor::new(bytes)).map_err(|e| format!("err:{e:?}"))?;
         let v = ods.worksheet_range("Sheet1").map_err(|e| format!("err:{e:?}"))?;
         let f = ods.worksheet_formula("Sheet1").map_err(|e| format!("err:{e:?}"))?;
+        // reading is independent of the reader's option history: after Row(a) / FirstNonEmptyRow / Row(b) detours the
+        // same value reads the same ranges as a freshly opened one (cut by the public `Range::range`)
+        if let (Some(st), Some(en)) = (v.start(), v.end()) {
+            if (en.0 - st.0) < 64 && (bytes_len % 4) == 0 {
+                let a = st.0 + (bytes_len as u32 / 4) % (en.0 - st.0 + 1);
+                let b = st.0 + (bytes_len as u32 / 8) % (en.0 - st.0 + 1);
+                let ra = ods.with_header_row(calamine::HeaderRow::Row(a)).worksheet_range("Sheet1").map_err(|e| format!("err:{e:?}"))?;
+                let v2 = ods.with_header_row(calamine::HeaderRow::FirstNonEmptyRow).worksheet_range("Sheet1").map_err(|e| format!("err:{e:?}"))?;
+                let rb = ods.with_header_row(calamine::HeaderRow::Row(b)).worksheet_range("Sheet1").map_err(|e| format!("err:{e:?}"))?;
+                let same = |x: &calamine::Range<Data>, y: &calamine::Range<Data>| x.start() == y.start() && x.end() == y.end() && x.rows().eq(y.rows());
+                if !same(&ra, &v.range((a, st.1), en)) || !same(&v2, &v) || !same(&rb, &v.range((b, st.1), en)) {
+                    return Err(format!("option-history: Row({a}) / FirstNonEmptyRow / Row({b}) on one reader differ from fresh reads"));
+                }
+                ods.with_header_row(calamine::HeaderRow::FirstNonEmptyRow);
+            }
+        }
         Ok::<_, String>((v, f))
     }) {
         Err(p) => [format!("panic:{p}"), String::new()],
@@ -1153,6 +1218,13 @@ fn file_corpus() -> Vec<&'static str> {
         // positions; column declarations with group/header wrappers, shapes, forms, table-source before the rows
         "P5.7.127@H:s61)/G:f3ff0000000000000/GR2:_;f4000000000000000)/:_*3;b1))/:s62",
         "P4.16384.4@GGG:_;f3ff0000000000000/:/:_;f4008000000000000",
+        // seeded C04-m7: ONE blank run longer than 16384 columns / 1048576 rows in front of a value is counted in full
+        ":_*16385;f3ff0000000000000",
+        "1048577:/:f3ff0000000000000",
+        "Z1048576:/2:_*65536/:c*16384;_;s61;_*20000;b1",
+        // seeded C04-m8: childless cells in self-closing form for every kind — an empty string cell without paragraph
+        // (`<table:table-cell office:value-type="string"/>`) must not swallow its neighbours; self-closing rows
+        ":s%;f3ff0000000000000;s%*2;b1/Z:/:s%>;f4000000000000000",
         // spans, annotations (on a value, a string, a blank), foreign attributes, hidden rows, soft page breaks
         "VKY:f3ff0000000000000^2x2#+~;c;s61#;_#*2;b1+/F:c;c;s782079#+",
     ]
@@ -1186,6 +1258,8 @@ const OTHER_ATTRS: [&str; 5] = [
 struct CellCase {
     attrs: Vec<CAttr>,
     text: Option<String>,
+    /// no text child: write `<table:table-cell …/>` instead of `<table:table-cell …></table:table-cell>`
+    self_closing: bool,
 }
 
 impl CellCase {
@@ -1204,7 +1278,7 @@ impl CellCase {
                 CAttr::Other(i) => format!("o{i}"),
             })
             .collect();
-        format!("{}|{}", if a.is_empty() { "-".to_string() } else { a.join(";") }, self.text.as_ref().map(|t| hex(t.as_bytes())).unwrap_or("!".into()))
+        format!("{}|{}", if a.is_empty() { "-".to_string() } else { a.join(";") }, self.text.as_ref().map(|t| hex(t.as_bytes())).unwrap_or(if self.self_closing { "/".into() } else { "!".into() }))
     }
     fn parse(s: &str) -> CellCase {
         let (a, t) = s.split_once('|').expect("cell case");
@@ -1228,7 +1302,7 @@ impl CellCase {
                 })
                 .collect()
         };
-        CellCase { attrs, text: if t == "!" { None } else { Some(txt(t)) } }
+        CellCase { attrs, text: if t == "!" || t == "/" { None } else { Some(txt(t)) }, self_closing: t == "/" }
     }
     fn xml(&self) -> String {
         use verif_harness::odsw::{escape_attr, escape_text};
@@ -1245,6 +1319,10 @@ impl CellCase {
                 CAttr::Formula(r) => x.push_str(&format!("table:formula=\"{}\"", escape_attr(r))),
                 CAttr::Other(i) => x.push_str(OTHER_ATTRS[*i]),
             }
+        }
+        if self.text.is_none() && self.self_closing {
+            x.push_str("/>");
+            return x;
         }
         x.push('>');
         if let Some(t) = &self.text {
@@ -1362,7 +1440,8 @@ fn gen_cell(rng: &mut Rng) -> CellCase {
         attrs.push(CAttr::Other(*o));
     }
     rng.shuffle(&mut attrs);
-    CellCase { attrs, text }
+    let self_closing = rng.chance(1, 2);
+    CellCase { attrs, text, self_closing }
 }
 
 fn cell_corpus() -> Vec<&'static str> {
@@ -1380,13 +1459,18 @@ fn cell_corpus() -> Vec<&'static str> {
         // formula only; nothing at all
         "f6f663a3d5b2e41315d2b31|!",
         "-|!",
+        // childless cells in self-closing form: string type without content (seeded C04-m8), float, blank
+        "y737472696e67|/",
+        "y666c6f6174;v312e35|/",
+        "-|/",
     ]
 }
 
 fn run_cell(c: &CellCase, drv: &mut Driver) -> Option<(String, String, String, String, String)> {
     let mut cell = OdsCell::empty();
     cell.raw = Some(c.xml());
-    let book = OdsBook::new(vec![OdsSheet::new("Sheet1", vec![RowRun::new(vec![cell])])]);
+    // a sentinel neighbour: the cell under test must not swallow or displace what follows it
+    let book = OdsBook::new(vec![OdsSheet::new("Sheet1", vec![RowRun::new(vec![cell, OdsCell::float(77.0)])])]);
     let bytes = book.to_bytes();
     let imp = match guarded(|| {
         let mut ods: Ods<_> = match Ods::new(Cursor::new(bytes)) {
@@ -1403,7 +1487,11 @@ fn run_cell(c: &CellCase, drv: &mut Driver) -> Option<(String, String, String, S
         Ok(Ok((v, f))) => {
             let d = v.get_value((0, 0)).cloned().unwrap_or(Data::Empty);
             let fm = f.get_value((0, 0)).cloned().unwrap_or_default();
-            format!("{} f={}", show_data(&d), hex(fm.as_bytes()))
+            if v.get_value((0, 1)) != Some(&Data::Float(77.0)) || v.end() != Some((0, 1)) {
+                format!("neighbour-lost:{:?} end={:?}", v.get_value((0, 1)), v.end())
+            } else {
+                format!("{} f={}", show_data(&d), hex(fm.as_bytes()))
+            }
         }
     };
     // model: the attribute loop; when it says "use the text content" the value is the text:p content
@@ -1483,6 +1571,18 @@ fn file_counters(rows: &[RowRun], grid: &verif_harness::odsw::Grid, c: &mut Vec<
     }
     if rows.iter().any(|r| r.open.contains(&RowWrap::Rows)) {
         c.push(("file.table_rows", 1));
+    }
+    if rows.iter().any(|r| r.cells.iter().any(|c| c.is_blank() && c.count() > 16384)) {
+        c.push(("file.blank_run_gt_16384_cols", 1));
+    }
+    if rows.iter().any(|r| r.count() > 1_048_576 && r.cells.iter().all(|c| c.is_blank())) {
+        c.push(("file.blank_rows_gt_1048576", 1));
+    }
+    if rows.iter().any(|r| r.cells.iter().any(|c| matches!(&c.val, OdsVal::Str(t) if t.is_empty()) && !c.empty_paragraph)) {
+        c.push(("file.childless_string_cell", 1));
+    }
+    if rows.iter().any(|r| r.cells.is_empty() && r.self_closing) {
+        c.push(("file.self_closing_row", 1));
     }
     if rows.iter().any(|r| r.visibility.is_some()) {
         c.push(("file.row_visibility", 1));
@@ -1614,7 +1714,10 @@ fn main() {
          nested table:table-row-group / table:table-header-rows / table:table-rows, row visibility / style / soft page breaks, cell \
          spans, office:annotation children, foreign attributes, column declarations in every wrapper shape, table:table-source, \
          office:forms, table:shapes with a text box, sheet-local named expressions and calcext:conditional-formats after the rows, \
-         decoy sheets before and after), read with Ods::worksheet_range and worksheet_formula and compared with the bounding-box oracle \
+         decoy sheets before and after; childless cells / rows / tables in both the self-closing and the open-close form, incl. \
+         empty string cells without paragraph; 8 % of the grids sit right behind column 16384 / row 1048576 / 65536 / 2^21 / 2^24 so \
+         that single blank runs longer than those limits precede a value; on a quarter of the small files the same reader is \
+         also sent through Row(a) / FirstNonEmptyRow / Row(b) and must agree with fresh reads), read with Ods::worksheet_range and worksheet_formula and compared with the bounding-box oracle \
          of the grid, the Lean model getRange(collectV/collectF runs) and the Lean spec bbox/expand. cell: one table-cell element whose \
          attributes (value-type, 0..2 value attributes, formula, foreign attributes incl. calcext:value-type) stand in random order, \
          70 % well-formed (one value-type with its matching value attribute or text content), read through the public API vs the \
